@@ -11,6 +11,7 @@ MUTANTS = [
     ('grounded end 2 creates no pulse', [('mininec.Geobj.compute_connections', "        if self.is_ground [1]:\n            end2 = p2 - lseg.dirvec * lseg.seg_len * invz", "        if False and self.is_ground [1]:\n            end2 = p2 - lseg.dirvec * lseg.seg_len * invz")], ['grounded-pulse']),
     ('mirror vector wrong axis', [('mininec.Geobj.compute_connections', "invz = np.array ([1, 1, -1])", "invz = np.array ([1, -1, 1])")], ['grounded-pulse']),
     ('ground sign not applied', [('pulse.Pulse.__init__', "            self.gnd_sgn [self.ground] = -1\n", "")], ['grounded-pulse']),
+    ('grounded objects count as connected', [('mininec.Geobj.is_connected', "        if other is self:", "        if any (self.is_ground) and any (other.is_ground):\n            return True\n        if other is self:")], ['no-object-ground-state']),
 ]
 REFACTORS = [
     ('image_iter with list variable', [(M + 'image_iter', "        if self.media is None:\n            return iter ([1])\n        return iter ([1, -1])", "        if self.media is None:\n            return iter ([1])\n        else:\n            return iter ([1, -1])")]),
